@@ -763,6 +763,13 @@ class Calls(object):
                 # each of two pieces is strictly shorter than the string (the separator is not empty)
                 o_ = t.ops(cx)
                 st.assume(z3.Implies(ln >= 2, z3.And(cx.strlen(o_["nth"](r, 0)) < cx.strlen(recv.e), cx.strlen(o_["nth"](r, 1)) < cx.strlen(recv.e))))
+                if name == "split":
+                    # s.split(sep, 1) cuts at the FIRST occurrence: s == head + sep + tail and sep does not occur in head (assumed fact about str.split)
+                    cc = self.fx.lib.str_concat
+                    st.assume(z3.Implies(z3.And(args[1].e == 1, ln == 2),
+                                         z3.And(recv.e == cc(cc(o_["nth"](r, 0), args[0].e), o_["nth"](r, 1)),
+                                                z3.Not(self.fx.lib.str_contains(o_["nth"](r, 0), args[0].e)))))
+                    st.assume(z3.Implies(ln == 1, o_["nth"](r, 0) == recv.e))
             elif len(args) == 1:
                 has = self.fx.lib.str_contains(recv.e, args[0].e)
                 st.assume(has == (ln >= 2))
